@@ -104,6 +104,11 @@ structure Cfg where
   pdefs : List PDef := []
   flows : List XFlow := []
   qfiles : List QFile := []
+  /-- a file of the quotas directory that holds no YAML document (every line commented out, `---`, `~`, `null`,
+      blank) or no `quotas` key: `DecodeYAML` yields the empty object, "quota part is missing" -/
+  rawQuota : Bool := false
+  /-- gateway_config.yaml that `ValidateGatewayConfig` cannot decode (no document although not empty; broken YAML) -/
+  gatewayBad : Bool := false
 deriving Repr, Inhabited
 
 def findPDef (c : Cfg) (n : String) : Option PDef := c.pdefs.reverse.find? (·.name == n)
@@ -602,6 +607,7 @@ def firstSome {α : Type} (f : α → Option String) : List α → Option String
 
 /-- `NewValidationStream(dir).Initialize()` -/
 def load (c : Cfg) : LoadRes :=
+  if c.rawQuota then .reject "quota" else
   match quotaCheck c.qfiles with
   | .reject => .reject "quota"
   | .ok qurls =>
@@ -615,7 +621,7 @@ def load (c : Cfg) : LoadRes :=
       match buildAll c.ptypes c.flows c.flows none with
       | .error .fuel => .crash
       | .error e => .reject e.str
-      | .ok fls => .accept fls
+      | .ok fls => if c.gatewayBad then .reject "gateway" else .accept fls
 
 /-- depth a walk of a validated direction never exceeds: its number of nodes, plus one -/
 def depthOf (g : DirGraph) : Nat := g.nodes.length + 1
